@@ -78,8 +78,10 @@ def builtin(it, name):
         if hasattr(x, "abs_len"):
             return x.abs_len()
         if isinstance(x, GA):
-            return NRows(x.data.n, x.data.pop) if x.data.n else 0
+            x = x.data
         if isinstance(x, DF):
+            if getattr(x, "exact", False):
+                return x.n               # a table standing for exactly its rows (aggregation obligations)
             return NRows(x.n, x.pop) if x.n else 0
         if isinstance(x, Vec):
             return NRows(len(x.v)) if len(x.v) else 0
@@ -350,6 +352,11 @@ def load_subscript(it, obj, k):
             return GA(obj.cls, df_select(obj.data, k), obj.data.n, dict(obj.meta))
         if isinstance(k, slice) and k.start is None and k.stop == 0:
             return GA(obj.cls, DF({c: Vec([]) for c in obj.data.cols}, 0), 0, dict(obj.meta))
+        if isinstance(k, int) and not isinstance(k, bool):
+            fields = [c for c in obj.data.cols if not c.startswith("__")]
+            if not -obj.data.n <= k < obj.data.n:
+                raise Raised("IndexError", str(k))
+            return Row({c: obj.data.cols[c].v[k] for c in fields}, fields)
         if isinstance(k, (list, tuple)) and all(isinstance(c, str) for c in k):
             return DF({c: obj.data.cols[c] for c in k}, obj.data.n, obj.data.index)
         raise Undecided(f"GA getitem {k!r}")
@@ -626,6 +633,8 @@ def value_method(it, obj, name, args, kw):
             return obj._replace(**kw)
         if name == "_asdict":
             return obj._asdict()
+        if name == "copy" and "copy" not in obj._d:
+            return Row(dict(obj._d), list(obj._fields))
         v = obj._d.get(name)
         if v is not None:
             return it.call(v, args, kw)
@@ -744,7 +753,9 @@ def vec_method(it, obj, name, args, kw):
     if name == "nunique":
         return len(vec_method(it, obj, "drop_duplicates", [], {}).v)
     if name == "any":
-        return any(v is True for v in obj.v)
+        if all(isinstance(v, bool) or v is None for v in obj.v):
+            return any(v is True for v in obj.v)
+        return any(ai.truth(v) for v in obj.v if not is_nan(v))
     if name == "all":
         return all(v is True for v in obj.v)
     if name == "clip":
